@@ -5,9 +5,10 @@ import Rfsm.Proofs.HttpRoute
 # C20 — The BasicHTTP processor turns each valid POST into exactly one event
 
 Model: `Rfsm.Http` (bytes).  `handlePost t sid fields` is what `rocket_receive_event` does with a
-request whose url-encoded body decodes to `fields` (rocket's `HashMap<String,String>` form guard,
-then the route body); `formEncode`/`formDecode` are the serializer of the `url` crate used by
-`ureq::send_form` and rocket's form parser; `sendForm` is `BasicHTTPEventIOProcessor::send`.
+request whose url-encoded body decodes to `fields` (the `Form<RawFields>` guard keeps every field
+with its verbatim name, in body order; then the route body); `formEncode`/`formDecode` are the
+serializer of the `url` crate used by `ureq::send_form` and rocket's form parser; `sendForm` is
+`BasicHTTPEventIOProcessor::send`.
 
 The statement has three clauses (DESIGN.md §4 C20):
  (a) a POST naming a session of the table and carrying `_scxmleventname=N` is answered 200 and puts
@@ -17,10 +18,10 @@ The statement has three clauses (DESIGN.md §4 C20):
  (c) what `send` emits, read back by the receiving route, is an event with the same name and the
      textual form of each parameter.
 
-`C20_full` is false for the unchanged code: rocket reads form field NAMES structurally
-(`a.b`, `a[b]`, `k:x`, `x:y`, empty first key), see `C20_counterexample*`.  `C20_partial` is
-`C20_full` restricted to field names without `.`, `[`, `:`, not empty and not starting with `=`
-(`plainFields`); clause (b) holds unrestricted.
+`C20_full` (every field name is just a name) is PROVED: `theorem C20`.  Before the repair of finding
+C20-F1 it was false (`¬ C20_full` was a theorem of the old model): rocket read form field NAMES
+structurally (`a.b`, `a[b]`, `k:x`, `x:y`, empty first key).  The old counterexample inputs are kept
+as regression theorems `C20_regression_*` (and in the harness corpus): they now deliver the event.
 -/
 namespace Rfsm.Http
 
@@ -40,7 +41,8 @@ def noReservedParam (e : OutEvent) : Bool :=
   | some ps => ps.all (fun p => p.1 != scxmlEventName && p.1 != scxmlContent)
   | none => true
 
-/-- clause (a) for requests whose fields satisfy `ok` -/
+/-- clause (a) for requests whose fields satisfy `ok` (`ok` is `True` in `C20_full`; the parameter is
+    kept so that `C20_full` is literally the statement that was refuted for the old code) -/
 def C20_receive (ok : List (Bytes × Bytes) → Prop) : Prop :=
   ∀ (t : Table) (sid : Nat) (fields : List (Bytes × Bytes)),
     (sidsOf t).Nodup → keysDistinct fields = true → ok fields →
@@ -67,10 +69,6 @@ def C20_roundtrip (ok : List (Bytes × Bytes) → Prop) : Prop :=
 def C20_full : Prop :=
   C20_receive (fun _ => True) ∧ C20_codec ∧ C20_roundtrip (fun _ => True)
 
-/-- The part that holds: field names that rocket reads as one key. -/
-def C20_partial_stmt : Prop :=
-  C20_receive (fun f => plainFields f = true) ∧ C20_codec ∧ C20_roundtrip (fun f => plainFields f = true)
-
 /-! ## (b) the codec, for all byte strings -/
 
 theorem C20_codec_roundtrip : C20_codec := formDecode_formEncode
@@ -87,11 +85,9 @@ theorem C20_no_separator_in_component (s : Bytes) : ∀ c ∈ encStr s, c ≠ 38
 
 /-! ## (a) the receiving route -/
 
-theorem C20_receive_plain : C20_receive (fun f => plainFields f = true) := by
-  intro t sid fields hn hd hp
-  have hmap : handlePost t sid fields = routeBody t sid fields := by
-    unfold handlePost
-    rw [rocketMap_plain fields hp hd]
+theorem C20_receive_full : C20_receive (fun _ => True) := by
+  intro t sid fields hn hd _
+  have hmap : handlePost t sid fields = routeBody t sid fields := rfl
   rw [hmap, routeBody_spec t sid fields hd]
   cases hl : lookup t sid with
   | none => exact ⟨400, by omega, rfl⟩
@@ -112,29 +108,22 @@ theorem C20_receive_plain : C20_receive (fun f => plainFields f = true) := by
         unfold eventData
         cases ho : (otherFields fields).isEmpty with
         | true => cases fieldValue fields scxmlContent <;> simp
-        | false => simp
-#assert_axioms C20_receive_plain
+        | false => simp [mapOf_distinct _ (keysDistinct_otherFields fields hd)]
+#assert_axioms C20_receive_full
 
-/-- The route for EVERY request, in terms of the map rocket builds from the fields (`rocketMap`,
-    whose keys are pairwise distinct — `rocketMap_distinct`): 422 when rocket rejects the form;
-    otherwise exactly what the statement says *about that map*.  The only distance to `C20_full` is
-    `rocketMap fields` versus `fields`, which `rocketMap_plain` closes for plain names. -/
+/-- The route for EVERY request, duplicates included (outside the statement, which speaks of "the"
+    event name and "the" remaining fields): the LAST `_scxmleventname` names the event, the LAST
+    `_content` is its content, every other field is a parameter in body order (`eventData` then keeps
+    the last value of a repeated parameter name, `mapOf`). -/
 theorem C20_receive_all (t : Table) (sid : Nat) (fields : List (Bytes × Bytes)) :
     handlePost t sid fields =
-      match rocketMap fields with
-      | none => (422, t)
-      | some form =>
-        match lookup t sid, specEvent form with
-        | some _, some (n, _) =>
-          (200, enqueue t sid
-            { name := n,
-              params := if (otherFields form).isEmpty then none else some (otherFields form),
-              content := fieldValue form scxmlContent })
-        | _, _ => (400, t) := by
-  unfold handlePost
-  cases h : rocketMap fields with
-  | none => rfl
-  | some form => exact routeBody_spec t sid form (rocketMap_distinct fields form h)
+      match lookup t sid, lastValue fields scxmlEventName with
+      | some _, some n =>
+        (200, enqueue t sid
+          { name := n,
+            params := if (otherFields fields).isEmpty then none else some (otherFields fields),
+            content := lastValue fields scxmlContent })
+      | _, _ => (400, t) := routeBody_all t sid fields
 #assert_axioms C20_receive_all
 
 /-- For EVERY request (any field names, duplicates, any table): either an error status and the
@@ -143,21 +132,16 @@ theorem C20_receive_all (t : Table) (sid : Nat) (fields : List (Bytes × Bytes))
 theorem C20_atomic (t : Table) (sid : Nat) (fields : List (Bytes × Bytes)) :
     (∃ st, 400 ≤ st ∧ handlePost t sid fields = (st, t)) ∨
     (∃ ev, handlePost t sid fields = (200, enqueue t sid ev) ∧ (lookup t sid).isSome = true) := by
-  unfold handlePost
-  cases rocketMap fields with
-  | none => exact Or.inl ⟨422, by omega, rfl⟩
-  | some form =>
+  unfold handlePost routeBody
+  cases hl : lookup t sid with
+  | none => exact Or.inl ⟨400, by omega, rfl⟩
+  | some s =>
     simp only
-    unfold routeBody
-    cases hl : lookup t sid with
-    | none => exact Or.inl ⟨400, by omega, rfl⟩
-    | some s =>
-      simp only
-      cases hb : buildEvent form with
-      | mk n ev =>
-        cases n with
-        | none => exact Or.inl ⟨400, by omega, rfl⟩
-        | some n => exact Or.inr ⟨_, rfl, rfl⟩
+    cases hb : buildEvent fields with
+    | mk n ev =>
+      cases n with
+      | none => exact Or.inl ⟨400, by omega, rfl⟩
+      | some n => exact Or.inr ⟨_, rfl, rfl⟩
 #assert_axioms C20_atomic
 
 /-- the same for the whole request including the path segment -/
@@ -207,13 +191,9 @@ theorem C20_concurrent (t : Table) (reqs : List (Bytes × Bytes)) (s : Nat) :
         | some sid' =>
           simp only [hp] at he
           by_cases hl : (lookup t sid').isSome = true
-          · simp only [hl, ↓reduceIte] at he
-            cases hm : rocketMap (formDecode r.2) with
-            | none => simp [hm] at he
-            | some form =>
-              simp only [hm, Option.map_eq_some_iff, Prod.mk.injEq] at he
-              obtain ⟨_, _, h1, _⟩ := he
-              rw [← h1]; exact hl
+          · simp only [hl, ↓reduceIte, Option.map_eq_some_iff, Prod.mk.injEq] at he
+            obtain ⟨_, _, h1, _⟩ := he
+            rw [← h1]; exact hl
           · simp [hl] at he
       by_cases hs : sid = s
       · subst hs
@@ -266,10 +246,10 @@ theorem specEvent_sendForm (e : OutEvent) (hr : noReservedParam e = true) :
     | cons p ps => simp [outData, hps]
 #assert_axioms specEvent_sendForm
 
-theorem C20_roundtrip_plain : C20_roundtrip (fun f => plainFields f = true) := by
-  intro t sid e hn hl hd hr hp
+theorem C20_roundtrip_full : C20_roundtrip (fun _ => True) := by
+  intro t sid e hn hl hd hr _
   rw [sendBody_decodes]
-  have h := C20_receive_plain t sid (sendForm e) hn hd hp
+  have h := C20_receive_full t sid (sendForm e) hn hd trivial
   rw [specEvent_sendForm e hr] at h
   cases hlk : lookup t sid with
   | none => simp [hlk] at hl
@@ -277,7 +257,7 @@ theorem C20_roundtrip_plain : C20_roundtrip (fun f => plainFields f = true) := b
     simp only [hlk] at h
     obtain ⟨ev, h1, h2, h3, _⟩ := h
     exact ⟨ev, h1, h2, h3⟩
-#assert_axioms C20_roundtrip_plain
+#assert_axioms C20_roundtrip_full
 
 /-- the path segment of the location a session publishes (`…/scxml/<decimal id>`) names it -/
 theorem C20_location_names_session (sid : Nat) (h : sid < 4294967296) :
@@ -290,21 +270,23 @@ theorem C20_location_names_session (sid : Nat) (h : sid < 4294967296) :
     published location, delivers `e`'s name and the text of each parameter -/
 theorem C20_roundtrip_request (t : Table) (sid : Nat) (e : OutEvent)
     (hn : (sidsOf t).Nodup) (hl : (lookup t sid).isSome = true) (h32 : sid < 4294967296)
-    (hd : keysDistinct (sendForm e) = true) (hr : noReservedParam e = true)
-    (hp : plainFields (sendForm e) = true) :
+    (hd : keysDistinct (sendForm e) = true) (hr : noReservedParam e = true) :
     ∃ ev, receive t (decimal sid) (sendBody e) = (200, enqueue t sid ev) ∧
       ev.name = e.name ∧ eventData ev = outData e := by
   unfold receive
   rw [parseSid_decimal sid h32]
-  exact C20_roundtrip_plain t sid e hn hl hd hr hp
+  exact C20_roundtrip_full t sid e hn hl hd hr trivial
 #assert_axioms C20_roundtrip_request
 
-/-- C20 for field / parameter names that rocket reads as one key -/
-theorem C20_partial : C20_partial_stmt :=
-  ⟨C20_receive_plain, C20_codec_roundtrip, C20_roundtrip_plain⟩
-#assert_axioms C20_partial
+/-- C20 at full strength: every field / parameter name is just a name -/
+theorem C20 : C20_full :=
+  ⟨C20_receive_full, C20_codec_roundtrip, C20_roundtrip_full⟩
+#assert_axioms C20
 
-/-! ## the unchanged code violates `C20_full`: concrete witnesses (replayed by the harness corpus) -/
+/-! ## regression: the witnesses of the repaired finding C20-F1 (also in the harness corpus)
+
+Under the old code (form = `HashMap<String,String>`, names read as form paths by rocket) these inputs
+gave 422 / a truncated key / a smuggled event name; `¬ C20_full` was proved from the first one. -/
 
 def tbl1 : Table := [{ sid := 1, queue := [] }]
 /-- `ev` -/
@@ -316,37 +298,41 @@ def bAB : Bytes := [97, 46, 98]
 /-- `1` -/
 def b1 : Bytes := [49]
 
-/-- `_scxmleventname=ev&x:y=1` to a live session: answered 422, nothing enqueued -/
-theorem C20_counterexample_rejected :
-    handlePost tbl1 1 [(scxmlEventName, bEv), (bXY, b1)] = (422, tbl1) := by decide
-#assert_axioms C20_counterexample_rejected
-
-/-- `_scxmleventname=ev&a.b=1`: delivered, but `_event.data` has the key `a`, not `a.b` -/
-theorem C20_counterexample_truncated :
-    handlePost tbl1 1 [(scxmlEventName, bEv), (bAB, b1)] =
-      (200, [{ sid := 1, queue := [{ name := bEv, params := some [([97], b1)], content := none }] }]) := by
+/-- `_scxmleventname=ev&x:y=1` to a live session (was: 422, nothing enqueued) -/
+theorem C20_regression_colon :
+    handlePost tbl1 1 [(scxmlEventName, bEv), (bXY, b1)] =
+      (200, [{ sid := 1, queue := [{ name := bEv, params := some [(bXY, b1)], content := none }] }]) := by
   decide
-#assert_axioms C20_counterexample_truncated
+#assert_axioms C20_regression_colon
 
-/-- `<send>` with `<param name="x:y" expr="1"/>`: the event is lost on the receiving side -/
-theorem C20_counterexample_send_lost :
-    handlePost tbl1 1 (formDecode (sendBody { name := bEv, params := some [(bXY, .int 1)], content := none }))
-      = (422, tbl1) := by
+/-- `_scxmleventname=ev&a.b=1` (was: delivered under the key `a`) -/
+theorem C20_regression_dot :
+    handlePost tbl1 1 [(scxmlEventName, bEv), (bAB, b1)] =
+      (200, [{ sid := 1, queue := [{ name := bEv, params := some [(bAB, b1)], content := none }] }]) := by
+  decide
+#assert_axioms C20_regression_dot
+
+/-- `_scxmleventname=ev&=1`: the empty name is a parameter name (was: 422) -/
+theorem C20_regression_emptykey :
+    handlePost tbl1 1 [(scxmlEventName, bEv), ([], b1)] =
+      (200, [{ sid := 1, queue := [{ name := bEv, params := some [([], b1)], content := none }] }]) := by
+  decide
+#assert_axioms C20_regression_emptykey
+
+/-- `k:n=_scxmleventname&v:n=ev` does not name an event any more (was: 200, event `ev`) -/
+theorem C20_regression_smuggled :
+    handlePost tbl1 1 [([107, 58, 110], scxmlEventName), ([118, 58, 110], bEv)] = (400, tbl1) := by
+  decide
+#assert_axioms C20_regression_smuggled
+
+/-- `<send>` with `<param name="x:y" expr="true"/>` arrives with that parameter and the text `true`
+    (was: lost, 422) -/
+theorem C20_regression_send_colon :
+    handlePost tbl1 1 (formDecode (sendBody { name := bEv, params := some [(bXY, .bool true)], content := none }))
+      = (200, [{ sid := 1, queue := [{ name := bEv, params := some [(bXY, [116, 114, 117, 101])], content := none }] }]) := by
   rw [sendBody_decodes]
   decide
-#assert_axioms C20_counterexample_send_lost
-
-theorem C20_counterexample : ¬ C20_full := by
-  intro h
-  have h1 := h.1 tbl1 1 [(scxmlEventName, bEv), (bXY, b1)] (by decide) (by decide) trivial
-  have hl : lookup tbl1 1 = some { sid := 1, queue := [] } := by decide
-  have hs : specEvent [(scxmlEventName, bEv), (bXY, b1)] = some (bEv, .map [(bXY, b1)]) := by decide
-  rw [hl, hs] at h1
-  obtain ⟨ev, h2, _⟩ := h1
-  rw [C20_counterexample_rejected] at h2
-  have h3 := congrArg Prod.fst h2
-  simp at h3
-#assert_axioms C20_counterexample
+#assert_axioms C20_regression_send_colon
 
 /-! ## non-vacuity: concrete instances of the hypotheses -/
 
@@ -354,7 +340,7 @@ theorem C20_counterexample : ¬ C20_full := by
 example :
     let t : Table := [{ sid := 1, queue := [] }, { sid := 2, queue := [] }]
     let fields : List (Bytes × Bytes) := [(scxmlEventName, bEv), ([112, 49], [97, 98, 99]), ([112, 50], [49, 50, 51])]
-    (sidsOf t).Nodup ∧ keysDistinct fields = true ∧ plainFields fields = true ∧
+    (sidsOf t).Nodup ∧ keysDistinct fields = true ∧
       handlePost t 2 fields = (200, [{ sid := 1, queue := [] },
         { sid := 2, queue := [{ name := bEv, params := some [([112, 49], [97, 98, 99]), ([112, 50], [49, 50, 51])], content := none }] }]) := by
   decide
@@ -362,8 +348,15 @@ example :
 /-- the project's own example event (`leave`, p1='abc', p2=123) through `send` and back -/
 example :
     let e : OutEvent := { name := [108], params := some [([112, 49], .str [97, 98, 99]), ([112, 50], .bool true)], content := none }
-    keysDistinct (sendForm e) = true ∧ noReservedParam e = true ∧ plainFields (sendForm e) = true ∧
+    keysDistinct (sendForm e) = true ∧ noReservedParam e = true ∧
       outData e = .map [([112, 49], [97, 98, 99]), ([112, 50], [116, 114, 117, 101])] := by
+  decide
+
+/-- structural-looking names satisfy the hypotheses of `C20` like any other (`a.b`, `x:y`, `[]`, empty) -/
+example :
+    let fields : List (Bytes × Bytes) := [(bAB, b1), (scxmlEventName, bEv), (bXY, b1), ([91, 93], b1), ([], b1)]
+    keysDistinct fields = true ∧
+      specEvent fields = some (bEv, .map [(bAB, b1), (bXY, b1), ([91, 93], b1), ([], b1)]) := by
   decide
 
 /-- a value that needs every kind of escaping survives the codec (test, by evaluation) -/
